@@ -344,9 +344,16 @@ def r_temporaries(P, R):
         return
     loop = rel[0]
     decs = [c for c in au.calls_in(loop) if au.call_name(c) == 'decref']
-    top = loop in ld.node.body or any(
-        isinstance(s, ast.Try) and loop in s.finalbody
-        for s in ld.node.body)
+    # unconditional on the normal exit: reached from the function body
+    # through `try` bodies / final blocks only
+    au.set_parents(ld.node)
+    top = True
+    child, par = loop, getattr(loop, '_parent', None)
+    while par is not None and par is not ld.node:
+        if not (isinstance(par, ast.Try) and (
+                child in par.body or child in par.finalbody)):
+            top = False
+        child, par = par, getattr(par, '_parent', None)
     if len(decs) == 1 and top:
         R.holds('R-PAIR', ld.qualname, 'one decref per memo entry, '
                 'unconditionally on the normal exit')
